@@ -858,6 +858,8 @@ def c16_plan(pid, tier, seed, t0):
         jobs.append(("handoff", [conc, "handoff", str([4, 8, 16][k % 3]), str(300 if tier == "quick" else 3000), str(seed * 37 + k)]))
     for k in range(6 if tier == "quick" else 150):
         jobs.append(("crowd", [conc, "crowd", str([8, 16, 4][k % 3]), str(40 if tier == "quick" else 300), str(seed * 41 + k)]))
+    for k in range(8 if tier == "quick" else 160):
+        jobs.append(("hammer", [conc, "hammer", str([8, 32, 4, 16][k % 4]), str(150 if tier == "quick" else 1500), str(seed * 43 + k)]))
     first_runs = 200 if tier == "quick" else 10000
     for k in range(first_runs):
         spins = rnd.choice([0, 0, 1000, 10000, 100000, 1000000, 3000000])
@@ -874,6 +876,8 @@ def c16_plan(pid, tier, seed, t0):
             jobs.append(("tsan-twins", [tsan, "twins", str([2, 4][k % 2]), "60", str(seed * 19 + k)]))
         for k in range(3 if tier == "quick" else 30):
             jobs.append(("tsan-handoff", [tsan, "handoff", str([4, 8][k % 2]), "40", str(seed * 23 + k)]))
+        for k in range(2 if tier == "quick" else 20):
+            jobs.append(("tsan-hammer", [tsan, "hammer", str([4, 8][k % 2]), "20", str(seed * 29 + k)]))
         for k in range(20 if tier == "quick" else 200):
             jobs.append(("tsan-first", [tsan, "first", str(rnd.choice([4, 8])), str(rnd.choice([0, 10000, 300000])), str(k)]))
     else:
@@ -934,6 +938,11 @@ def c16_plan(pid, tier, seed, t0):
         "'crowd' runs keep one long-lived worker projecting over 171 elements while 160..640 short-lived threads come and go in waves, each "
         "projecting over its own 48..307 elements and all of a wave hitting at once a never-seen document whose 19-digit numeric strings go through "
         "to_number; "
+        "'hammer' runs make 4..32 threads call the SAME built-in through one shared runtime in a tight loop, one built-in after another (join, sort, "
+        "sort_by, max_by/min_by with ties, max/min, sum/avg, map with two differently ill-typed elements, projections, filters, reverse, to_string, merge, "
+        "keys/values, length/contains on multi-byte strings, flatten, to_number), each thread on its own inputs of 0..376 (some 2600) elements, compared "
+        "with what a private runtime returned to the same thread beforehand; then several hundred rounds with a fresh shared runtime into which all "
+        "threads bring 80+ never-seen arrays of 64..103 numbers at once (sum, avg, max, length, sort, max_by, join known by construction); "
         "'handoff' rounds move ownership between threads: the main thread compiles an expression, long-lived workers search it three times, the main "
         "thread drops it and compiles a same-length text differing in a constant (results known by construction), while every thread also compiles a "
         "60..120-deep multi-select at the same instant; "
